@@ -207,7 +207,78 @@ pub fn exec(case: &Value) -> Value {
     e
 }
 
+/// Search for states from which a rejection sampler needs unusually many tries
+/// ("hard" states): walks the generator's own sequence in several threads for a time
+/// budget and prints the states with the longest runs, `rfverif rand gen hard <ms> <threads>`.
+/// The driver only picks inputs; whether the samples drawn from them are allowed is TLC's call.
+fn hard_search(args: &Args, out: &mut dyn Write) {
+    let ms: u64 = args.rest.get(1).and_then(|s| s.parse().ok()).unwrap_or(1000);
+    let threads: u64 = args.rest.get(2).and_then(|s| s.parse().ok()).unwrap_or(8);
+    let seed = args.seed;
+    let hs: Vec<_> = (0..threads)
+        .map(|t| {
+            std::thread::spawn(move || {
+                let mut rng = Rng::new(seed ^ 0xD15C ^ (t << 40));
+                let start = std::time::Instant::now();
+                // best[d]: (run, state) sorted descending, at most 12 kept
+                let mut best: [Vec<(u32, u64)>; 2] = [vec![], vec![]];
+                let mut g = Xorshift64(rng.next() | 1);
+                let mut n = 0u64;
+                loop {
+                    for _ in 0..4096 {
+                        for (d, per) in [(0usize, 3u32), (1, 2)] {
+                            let st = g.0;
+                            let mut sh = Xorshift64(st);
+                            if d == 0 {
+                                VectorsInUnitBall.sample(&mut g);
+                            } else {
+                                VectorsOnUnitDisk.sample(&mut g);
+                            }
+                            // steps consumed = distance from st to g.0 along the sequence
+                            let mut k = 0u32;
+                            while sh.0 != g.0 && k < 100_000 {
+                                sh.next_bits();
+                                k += 1;
+                            }
+                            let run = k / per;
+                            if best[d].len() < 12 || run > best[d].last().unwrap().0 {
+                                best[d].push((run, st));
+                                best[d].sort_by(|a, b| b.cmp(a));
+                                best[d].truncate(12);
+                            }
+                        }
+                        n += 2;
+                    }
+                    if start.elapsed().as_millis() as u64 >= ms {
+                        break;
+                    }
+                }
+                (best, n)
+            })
+        })
+        .collect();
+    let mut all: [Vec<(u32, u64)>; 2] = [vec![], vec![]];
+    let mut total = 0;
+    for h in hs {
+        let (b, n) = h.join().unwrap();
+        total += n;
+        for d in 0..2 {
+            all[d].extend(b[d].iter().copied());
+        }
+    }
+    for (d, name) in ["ball", "disk"].iter().enumerate() {
+        all[d].sort_by(|a, b| b.cmp(a));
+        all[d].truncate(16);
+        for (run, st) in &all[d] {
+            writeln!(out, "{}", json!({"dist": name, "s": limbs(*st), "tries": run, "searched": total})).unwrap();
+        }
+    }
+}
+
 pub fn gen(args: &Args, out: &mut dyn Write) {
+    if args.rest.first().map(|s| s.as_str()) == Some("hard") {
+        return hard_search(args, out);
+    }
     let thorough = args.tier == "thorough";
     let mut rng = Rng::new(args.seed ^ 0x4A2D);
     let mut k = 0;
